@@ -468,7 +468,7 @@ func TestVerifC11Machine(t *testing.T) {
 	c.Floor("machine-overflow/machine", 0.01)
 	fillBudget := 12
 	if ev.Thorough() {
-		fillBudget = 60
+		fillBudget = 240
 	}
 	var fills int
 	rapid.Check(t, func(rt *rapid.T) {
